@@ -1,8 +1,10 @@
 #!/bin/bash
 # Run once in /verif after a fresh restore, offline. Nothing needs to be pre-built: every check regenerates its scratch crate
-# from /repo's working tree. This only verifies that the tool chain is present and warms Kani's first-use setup.
+# from /repo's working tree. This verifies that the tool chain is present and that the bounded container models still pass the
+# repository's own tests (translator validation, ~1 minute).
 set -e
 export CARGO_NET_OFFLINE=true
 cd "$(dirname "$0")"
 cargo kani --version
 python3 -c "import sys; sys.path.insert(0,'.'); from vlib import gen; print(len(gen.all_harnesses('real')), 'real-mode harnesses;', len(gen.all_harnesses('vshim')), 'vshim-mode harnesses')"
+python3 vlib/validate.py
